@@ -237,8 +237,14 @@ impl<AnyLoader: Loader> Context<AnyLoader> {
         };
         // Note: Should a "full stack" of bases be used here?
         // Or is this fine?
-        let url = relative(&from, url);
-        if let Some((path, mut file)) = self.do_find_file(&url, names)? {
+        // Try relative to the importing file, then unchanged (the
+        // loader tries the url in each of its load paths).
+        let relative_url = relative(&from, url);
+        let found = match self.do_find_file(&relative_url, names)? {
+            None if relative_url != url => self.do_find_file(url, names)?,
+            found => found,
+        };
+        if let Some((path, mut file)) = found {
             let is_module = !from.is_import();
             let source = from.url(&path);
             let file = SourceFile::read(&mut file, source)?;
